@@ -29,6 +29,8 @@ type tbWorld struct {
 	nEval  int
 }
 
+// c08 mirrors: in a later call on a reused instance the C01/C02 oracle failures are C08 violations as well
+
 // L appends the template to an assertion label, so that findings are identified per template.
 func (w *tbWorld) L(label string) string { return label + "@" + w.tmpl }
 
@@ -125,6 +127,9 @@ func (w *tbWorld) EvaluateRuleEntry(ctx context.Context, cycle uint64, e *ast.Ru
 	f := w.fresh(e.RuleName)
 	verif.Assert(w.L("C02:satisfied-rule-is-reported-candidate:"+e.RuleName), verif.Implies(f, cand))
 	verif.Assert(w.L("C01:candidate-only-when-the-condition-holds-now:"+e.RuleName), verif.Implies(cand, f))
+	if strings.HasSuffix(w.tmpl, "/second-call") {
+		verif.Assert(w.L("C08:candidate-status-as-on-a-fresh-instance:"+e.RuleName), verif.Iff(f, cand))
+	}
 	verif.Event("EV", cycle, e.RuleName, cand)
 }
 
@@ -203,9 +208,9 @@ func (w *tbWorld) frame(pre factSnap, n int64, may map[string]bool) {
 	chk("F.U16", a.U16 == b.U16)
 	chk("F.U32", a.U32 == b.U32)
 	chk("F.U64", a.U64 == b.U64)
-	chk("F.F32", a.F32 == b.F32)
-	chk("F.X", a.X == b.X)
-	chk("F.Y", a.Y == b.Y)
+	chk("F.F32", verif.SameFloat64(float64(a.F32), float64(b.F32)))
+	chk("F.X", verif.SameFloat64(a.X, b.X))
+	chk("F.Y", verif.SameFloat64(a.Y, b.Y))
 	chk("F.B", a.B == b.B)
 	chk("F.C", a.C == b.C)
 	chk("F.S", a.S == b.S)
@@ -213,13 +218,13 @@ func (w *tbWorld) frame(pre factSnap, n int64, may map[string]bool) {
 	chk("F.P", pre.pp == w.f.P)
 	if pre.hasP && w.f.P == pre.pp {
 		chk("F.P.V", pre.p.V == post.p.V)
-		chk("F.P.W", pre.p.W == post.p.W)
+		chk("F.P.W", verif.SameFloat64(pre.p.W, post.p.W))
 	}
 	if !may["F.Q"] {
 		chk("F.Q.V", pre.q.V == post.q.V)
 	}
 	chk("F.N.V", a.N.V == b.N.V)
-	chk("F.N.W", a.N.W == b.N.W)
+	chk("F.N.W", verif.SameFloat64(a.N.W, b.N.W))
 	verif.Assert(w.L("C04:frame:slice-length-unchanged"), len(pre.arr) == len(post.arr) && len(pre.fa) == len(post.fa))
 	for i := range pre.arr {
 		if i < len(post.arr) {
@@ -228,7 +233,7 @@ func (w *tbWorld) frame(pre factSnap, n int64, may map[string]bool) {
 	}
 	for i := range pre.fa {
 		if i < len(post.fa) {
-			chk("F.FA["+string(rune('0'+i))+"]", pre.fa[i] == post.fa[i])
+			chk("F.FA["+string(rune('0'+i))+"]", verif.SameFloat64(pre.fa[i], post.fa[i]))
 		}
 	}
 	chk(`F.M["a"]`, pre.ma == post.ma)
@@ -274,6 +279,8 @@ var tbSets = map[string][]string{
 	"memo":    {"b_basic", "b_toplevel", "b_slice_sel", "b_slice", "b_map", "b_nested", "b_short", "b_shared", "b_forget", "b_ptrswap", "b_forgetcall"},
 	"control": {"b_retract", "b_fail", "b_nilptr"},
 	"values":  {"b_compound", "b_args", "b_float", "b_string"},
+	"reuse":   {"b_unread", "b_retract", "b_basic"},
+	"reuseq":  {"b_unread", "b_basic"},
 	"clone":   {"b_argshare", "b_shared", "b_short", "b_retract", "b_map", "b_slice_sel", "b_forgetcall", "two"},
 }
 
@@ -456,4 +463,74 @@ func lastIndex(xs []string, s string) int {
 		}
 	}
 	return r
+}
+
+// ---------------------------------------------------------------- reuse of an instance (C08, Tier B)
+
+// VerifTierBReuse: two Execute calls on ONE instance, each with its own data context and its own symbolic facts.
+// The second call must behave like a call on a fresh instance: the memo-free oracle (C01/C02) is asserted throughout it,
+// and it must not touch the first caller's facts.
+func VerifTierBReuse(set string, maxCycle int, fetchFirst int) {
+	ts := tbSets[set]
+	tmpl := ts[verif.Choice("template", len(ts))]
+	w := tbSetup(tmpl, 0, false)
+	eng := &engine.GruleEngine{MaxCycle: uint64(maxCycle), Listeners: []engine.GruleEngineListener{w}}
+	run := func() (err error, panicked bool) {
+		defer func() {
+			if r := recover(); r != nil {
+				panicked = true
+			}
+		}()
+		err = eng.Execute(w.dc, w.kb)
+		return
+	}
+	if fetchFirst != 0 {
+		_, _ = eng.FetchMatchingRules(w.dc, w.kb)
+	}
+	_, pan1 := run()
+	verif.Assert(w.L("C14:no-panic-escapes"), !pan1)
+	f1 := w.f
+	n1 := w.topN()
+	after1 := snapFact(f1, n1)
+	firedFirst := len(w.fired)
+	// second call: new data context, new facts, same instance
+	w.f = newFact("G", 0)
+	w.dc = ast.NewDataContext()
+	w.dc.Add("F", w.f)
+	w.dc.Add("N", smallInt("N2"))
+	w.fired = nil
+	pre2 := snapFact(w.f, w.topN())
+	verif.Reach("tierB:second-call")
+	w.tmpl = tmpl + "/second-call"
+	err2, pan2 := run()
+	verif.Assert(w.L("C14:no-panic-escapes"), !pan2)
+	if pan2 {
+		return
+	}
+	if firedFirst > 0 && len(w.fired) > 0 {
+		verif.Reach("tierB:both-calls-fired")
+	}
+	// the first caller's facts are not touched by the second call
+	w2f := w.f
+	w.f = f1
+	w.tmpl = tmpl + "/first-callers-facts-during-second-call"
+	w.frame(after1, n1, map[string]bool{"N": true})
+	w.f = w2f
+	w.tmpl = tmpl + "/second-call"
+	may := map[string]bool{}
+	for _, n := range w.fired {
+		tbTargets(w.kb.RuleEntries[n], may)
+	}
+	w.frame(pre2, w.topN(), may)
+	if err2 == nil && !w.dc.IsComplete() {
+		for _, n := range w.names {
+			re := w.kb.RuleEntries[n]
+			if !re.Retracted && !re.Deleted {
+				verif.Assert(w.L("C02:no-satisfied-rule-at-quiescence:"+n), verif.Not(w.fresh(n)))
+				verif.Assert(w.L("C08:no-satisfied-rule-at-quiescence-of-a-later-call:"+n), verif.Not(w.fresh(n)))
+			}
+		}
+	}
+	// every rule retracted in the first call takes part again: its condition was evaluated in the second call
+	verif.Assert(w.L("C08:later-call-evaluated-rules"), w.nEval > 0)
 }
